@@ -1066,6 +1066,29 @@ impl Runner {
     }
 }
 
+// ---------------------------------------------------------------------------
+// Event log (numeric drivers): one JSON record per observed call, judged offline
+// ---------------------------------------------------------------------------
+static EVENT_LOG: Mutex<Option<std::io::BufWriter<std::fs::File>>> = Mutex::new(None);
+
+pub fn open_event_log(path: &str) {
+    let f = std::fs::File::create(path).expect("cannot create event log");
+    *EVENT_LOG.lock().unwrap() = Some(std::io::BufWriter::with_capacity(1 << 20, f));
+}
+/// appends complete lines (each thread hands over a batch)
+pub fn log_lines(batch: &str) {
+    use std::io::Write;
+    if let Some(w) = EVENT_LOG.lock().unwrap().as_mut() {
+        w.write_all(batch.as_bytes()).expect("event log write");
+    }
+}
+pub fn close_event_log() {
+    use std::io::Write;
+    if let Some(mut w) = EVENT_LOG.lock().unwrap().take() {
+        w.flush().expect("event log flush");
+    }
+}
+
 pub fn h64<T: std::hash::Hash>(x: &T) -> u64 {
     use std::hash::Hasher;
     let mut h = std::collections::hash_map::DefaultHasher::new();
